@@ -76,7 +76,7 @@ Proof.
     pose proof (step_assoc se (N.of_nat j) r alt (s_node s) b _ Er Hb eq_refl) as Hstep.
     destruct (thread_step (N.of_nat j) r alt (s_node s) b (get_thr b r)) as [[[nd' a'] t']| |site];
       try discriminate; injection H as <-; [|exact Hf].
-    destruct Hstep as [[_ (_ & _ & _ & _ & _ & _ & _ & D4)] _].
+    destruct Hstep as [[_ (_ & _ & _ & _ & _ & _ & _ & _ & D4)] _].
     intros i c a Hci Hfi Ha. cbn in Ha. destruct (Nat.eq_dec j i) as [->|Hne].
     + rewrite (nth_error_upd_same _ _ _ _ Eb) in Ha. injection Ha as <-. apply D4. eapply Hf; eauto.
     + rewrite nth_error_upd_other in Ha by exact Hne. eapply Hf; eauto.
